@@ -4,8 +4,10 @@ from concurrent.futures import ThreadPoolExecutor
 
 import vlib
 
-QUICK = [("Selection.cfg", 400), ("SelectionTriples.cfg", 400)]
-THOROUGH = QUICK + [("SelectionThorough.cfg", 900), ("SelectionTriplesThorough.cfg", 900)]
+QUICK = [("Selection.cfg", 400), ("SelectionTriples.cfg", 400),
+         ("SelectionRatio.cfg", 400), ("SelectionRatioTriples.cfg", 400)]
+THOROUGH = QUICK + [("SelectionThorough.cfg", 900), ("SelectionTriplesThorough.cfg", 900),
+                    ("SelectionRatioThorough.cfg", 900), ("SelectionRatioTriplesThorough.cfg", 900)]
 
 
 def run(chk, replay=None):
@@ -20,7 +22,16 @@ def run(chk, replay=None):
                 "the verdicts; the driver replays them on PraosChainSelector with WindowedChainTips (and "
                 "SimpleChainTips on the legacy-density rows, GenesisSelector.Compare on the window rows) in several "
                 "concrete 'worlds' (small, top of uint64, mainnet-like, ...), Preferred/PreferredWithDensity in "
-                "all orders; a case is one (row, world); non-trivial when the tips differ / not all are maximal")
+                "all orders; a case is one (row, world); non-trivial when the tips differ / not all are maximal. "
+                "Resolution of the legacy density (Selection*Ratio*.cfg, TipKind = ratio): tips that carry "
+                "blocks-after-the-fork / slots-after-the-fork directly, at magnitudes from a few slots to 6*10^8, "
+                "with equal ratios through different totals (1/s = 2/2s) and unequal ratios arbitrarily close "
+                "(n/s against n/(s+1), the model asserts that its domain holds ratios closer than 1e-9); TLC proves "
+                "UnequalRatioDecides (the sign of the cross product decides a deep fork however small the "
+                "difference), EqualRatioTies, DensityTieTransitive besides the order properties; replayed as "
+                "SimpleChainTips (totals scaled per world) and as WindowedChainTips under a selector without a "
+                "window (block slots laid out so that the chain has exactly that ratio after the fork slot, with "
+                "blocks at and before the fork slot)")
     chk.assumptions = [
         "block numbers and VRF outputs are only compared, so monotone maps onto uint64 / equal-length byte strings "
         "preserve every verdict; slots, fork slot and window only enter through s > fs and s - fs <= w, preserved "
@@ -30,6 +41,10 @@ def run(chk, replay=None):
         "Preferred may return any maximal candidate (the property does not fix the choice among equivalent tips)",
         "legacy density (no window configured) is compared as an exact ratio in the model; the replay keeps the "
         "ratio's numerator/denominator small or scaled by powers of two so float64 division is exact",
+        "ratio rows: every total and span stays below 2^53 (exact in float64) and every cross product below 2^52, "
+        "so the correctly rounded quotients are ordered exactly like the rationals (division is monotone, distinct "
+        "ratios stay distinct, equal ratios give the same float whatever the totals); multiplying all spans by one "
+        "constant, or both totals of a tip by one constant, preserves every verdict",
     ]
     plan = QUICK if chk.tier == "quick" else THOROUGH
     drv = vlib.go_build("c41")
@@ -39,7 +54,7 @@ def run(chk, replay=None):
         return vlib.run_tlc("consensus/Selection", cfg=cfg, timeout=to, workers=4,
                             env={"VERIF_SEED": chk.seed})
 
-    with ThreadPoolExecutor(max_workers=2) as ex:
+    with ThreadPoolExecutor(max_workers=4) as ex:
         results = list(ex.map(tlc, plan))
     for (cfg, to), r in zip(plan, results):
         vlib.tlc_must_pass(r, "Selection/" + cfg)
